@@ -156,6 +156,19 @@ class C13(Scenario):
             a0 = m.get_args()
         for n in a0.index:
             ctx.eq(f"{tag}get_args()[{n}]", a0[n], e0[n])
+        # default state, but another time: everything that is not parameter-like follows the time supplied
+        env_t = E.state_env(decl, {v: e0[v] for v in names}, T)
+        with ctx.impl(f"{tag}get_args(time=T)"):
+            at = m.get_args(time=T)
+            ft = m.get_fluxes(time=T)
+            rt = m.get_right_hand_side(time=T)
+        for n in at.index:
+            ctx.eq(f"{tag}get_args(time=T)[{n}]", at[n], env_t[n])
+        for n in ft.index:
+            ctx.eq(f"{tag}get_fluxes(time=T)[{n}]", ft[n], env_t[n])
+        dxt = E.rhs(decl, {v: e0[v] for v in names}, T, env_t)
+        for v in names:
+            ctx.eq(f"{tag}get_right_hand_side(time=T)[{v}]", rt[v], dxt[v])
         # unrelated state and time
         env = E.state_env(decl, state, T)
         with ctx.impl(f"{tag}get_args(S2,T2)"):
@@ -187,6 +200,16 @@ class C13(Scenario):
             sim = Simulator(m)
         for v in names:
             ctx.eq(f"Simulator.y0[{v}]", sim.y0[v], e0[v])
+        # an override on one simulator (before its first run) is that simulator's business only
+        with ctx.impl("Simulator.update_variable"):
+            sim.update_variable(names[0], ctx.real("ov_" + names[0]))
+        ctx.eq("the overriding simulator starts from the override", sim.y0[names[0]], ctx.real("ov_" + names[0]))
+        with ctx.impl("defaults after an override on a simulator"):
+            ic_m = m.get_initial_conditions()
+            sim2 = Simulator(m)
+        for v in names:
+            ctx.eq(f"after a simulator override: model initial condition [{v}]", ic_m[v], e0[v])
+            ctx.eq(f"after a simulator override: a new Simulator starts from the declared values [{v}]", sim2.y0[v], e0[v])
         # history: a parameter is changed after the cache exists -> assignments are resolved again
         plain_p = [pn for pn, pd_ in E.Decl(m).parameters.items() if not hasattr(pd_.value, "fn")]
         # one edit, then a look: a later invalidating edit must not get the chance to repair what an earlier one left stale
